@@ -64,7 +64,7 @@ func vh_C01_L6_failed_write_leaves_no_hole()  { vh_C18_L2_block_write_gate() }
 
 // C01.L7: accepted messages are not lost to a shutdown that begins while they are in flight
 // (= C08.L1d), nor to a skip sent on behalf of another, partially reliable stream (= C07.L2).
-func vh_C01_L7_delivered_despite_shutdown()       { vh_C08_L1_inflight_at_shutdown() }
+func vh_C01_L7_delivered_despite_shutdown()      { vh_C08_L1_inflight_at_shutdown() }
 func vh_C01_L7_skip_never_covers_reliable_data() { vh_C07_L2_advance_only_over_abandoned() }
 
 // C01.L4b / C05.L0: the TSN tracking structure built by the real constructor for any
